@@ -128,11 +128,21 @@ func c12body(seq []int, sm bool, writeFails bool, reset bool, mode string) func(
 			}
 			connIdx = 1
 		}
-		if mode == "second-connection" {
+		if mode == "second-connection" || mode == "second-connection-after-parse-error" {
+			if mode == "second-connection-after-parse-error" {
+				// the first session ends on an element the client cannot accept, with more data right behind it in
+				// the same segment: nothing of that may be left over for the next stream
+				s.conn(0).send("<notice xmlns='urn:example:unknown'/><message from='peer@example.org' id='stale'><body>left over</body></message><presence from='peer@example.org' id='stale2'/>")
+				vrt.WaitIdle()
+			}
 			s.conn(0).close()
 			vrt.WaitIdle()
 			if err := s.cl.Connect(); err != nil {
-				vrt.Fail("C12|harness|reconnect", "%v", err)
+				if mode == "second-connection-after-parse-error" {
+					vrt.Fail("C12|reconnect-fails-after-parse-error", "the session before ended on an unacceptable element followed by more data; connecting again failed: %v", err)
+				} else {
+					vrt.Fail("C12|harness|reconnect", "%v", err)
+				}
 				return
 			}
 			vrt.WaitIdle()
@@ -302,7 +312,7 @@ func TestVerifC12(t *testing.T) {
 				if !wf && len(q) <= 2 {
 					scs = append(scs, hx.Scenario{Name: fmt.Sprintf("seq=%s/sm=%v/mode=cut-on-tick", strings.Join(n, ","), sm),
 						Opt: vrt.Options{Bound: 1, Horizon: 100000}, Body: c12body(q, sm, false, false, "cut-on-tick"), Verdict: c12verdict})
-					for _, mode := range []string{"handler-waits", "second-connection", "reconnected-from-handler", "eof-with-data", "logger-eof-with-data"} {
+					for _, mode := range []string{"handler-waits", "second-connection", "second-connection-after-parse-error", "reconnected-from-handler", "eof-with-data", "logger-eof-with-data"} {
 						scs = append(scs, hx.Scenario{Name: fmt.Sprintf("seq=%s/sm=%v/mode=%s", strings.Join(n, ","), sm, mode),
 							Opt: vrt.Options{Bound: bound, Horizon: 100000}, Body: c12body(q, sm, false, false, mode), Verdict: c12verdict})
 					}
